@@ -326,6 +326,7 @@ class VWorld:
         self.interrupted = 0              # number of interrupts delivered to the parent so far (C14)
         self.staged: Optional[list] = None
         self.draining: set = set()
+        self.frozen = False               # after a second interrupt: executing children make no progress unless terminated
 
     # ---- bookkeeping
     def record(self, *ev):
@@ -358,6 +359,20 @@ class VWorld:
             task = thunk.keywords.get('task')
             use_cache = thunk.keywords.get('use_cache')
         tk = U.tkey(task) if task is not None and hasattr(task, 'label') else ('?', len(self.children))
+        blob = None
+        if proc.method == 'spawn':
+            # the spawn start method pickles the process object in the *parent*, before the
+            # child exists; an exception (or interrupt) here means no process was started
+            blob = pickle.dumps(kwargs)
+        # everything below stands for the OS creating the process and for the child itself:
+        # no parent-side labtech line is executed, so nothing here is an interrupt point
+        self.in_helper_thread += 1
+        try:
+            self._start_child_body(proc, target, kwargs, task, use_cache, tk, blob)
+        finally:
+            self.in_helper_thread -= 1
+
+    def _start_child_body(self, proc, target, kwargs, task, use_cache, tk, blob):
         child = VChild(len(self.children), tk, proc.method, use_cache)
         child.future_id = kwargs.get('future_id')
         proc.child = child
@@ -381,11 +396,11 @@ class VWorld:
         saved_name = real_mp.current_process().name
         saved_dicts = []
         if proc.method == 'spawn':
+            self.current_child = child      # unpickling happens in the child
             try:
-                kwargs = pickle.loads(pickle.dumps(kwargs))
-            except BaseException as e:  # noqa
-                self.record('spawn-pickle-failed', child.idx, repr(e))
-                raise
+                kwargs = pickle.loads(blob)
+            finally:
+                self.current_child = None
         else:
             seen = set()
 
@@ -489,7 +504,7 @@ class VWorld:
             for cb in self.on_killed:
                 cb(self, child)
             return False
-        if not self.liveness_choice:
+        if not self.liveness_choice or self.frozen:
             return True
         opts = ['alive', 'exited']
         c = self.chooser.choose(2, ('alive?', child.task_key), fp=self.fp(), label_of=lambda i: opts[i])
@@ -501,6 +516,8 @@ class VWorld:
 
     def deliverable(self, q) -> list:
         out = []
+        if self.frozen:
+            return out
         for ch in self.children:
             if ch.state != 'running':
                 continue
@@ -510,6 +527,8 @@ class VWorld:
         return out
 
     def something_can_happen(self) -> bool:
+        if self.frozen:
+            return False
         for ch in self.children:
             if ch.state == 'running' and (getattr(ch, 'doomed', False) or ch.result_put_index(self) is not None):
                 return True
@@ -523,6 +542,8 @@ class VWorld:
         (child index) - it cannot change which records are delivered."""
         if q.qid in self.draining:
             self.draining.discard(q.qid)
+            raise _queue.Empty()
+        if self.frozen:
             raise _queue.Empty()
         per_child = []
         for ch in self.children:
